@@ -193,6 +193,57 @@ def _transformed(pa, rng, c, d, kind, labels, de, alpha, beta, tk, rec, meta, sh
         return other
 
 
+def permute_instance(inst, perm):
+    """The same abstract alignment problem with annotator k of the new one = annotator perm[k] of the old one."""
+    n = inst["n"]
+    sizes = [inst["sizes"][perm[a]] for a in range(n)]
+    D = [[[] for _ in range(n)] for _ in range(n)]
+    for a in range(n):
+        for b in range(a + 1, n):
+            pa_, pb_ = perm[a], perm[b]
+            if pa_ < pb_:
+                D[a][b] = [[inst["D"][pa_][pb_][i][j] for j in range(sizes[b])] for i in range(sizes[a])]
+            else:
+                D[a][b] = [[inst["D"][pb_][pa_][j][i] for j in range(sizes[b])] for i in range(sizes[a])]
+    return {"n": n, "sizes": sizes, "de": inst["de"], "D": D}
+
+
+def instance_permutations(rep, pa, rng, insts, limit):
+    """L2 for 'annotators renamed or permuted': every TLC-enumerated instance (incl. the 'one costly pair' universes, where the
+    optimum hinges on a tuple with one very dissimilar pair) realised exactly under each ordering of its annotators."""
+    import itertools
+    from . import alignrec as ar
+    recs, metas = [], []
+    if len(insts) > limit:
+        insts = rng.sample(insts, limit)
+    for p in insts:
+        inst = p["inst"]
+        if sum(1 for k in inst["sizes"] if k > 0) < 2:
+            continue
+        perms = list(itertools.permutations(range(inst["n"])))[1:]
+        if len(perms) > 5:
+            perms = rng.sample(perms, 5)
+        c0, d0 = ar.realise_table(pa, inst, align.G_SCALE)
+        try:
+            base = c0.get_best_alignment(d0).disorder
+        except Exception as ex:
+            rep.violation("invariance.raises", {"exception": repr(ex), "instance": inst})
+            continue
+        for perm in perms:
+            pi = permute_instance(inst, perm)
+            c1, d1 = ar.realise_table(pa, pi, align.G_SCALE)
+            meta = {"layer": "L2", "instance": inst, "annotator_order": list(perm), "spec_optimum_cost": p["result"]["pruned"], "transform": "permute"}
+            try:
+                other = c1.get_best_alignment(d1).disorder
+            except Exception as ex:
+                rep.violation("invariance.raises", {"exception": repr(ex), "meta": meta})
+                continue
+            recs.append({"kind": "permute", "c": [1, 1], "base": fxv(base), "other": fxv(other), "hasgamma": 0, "gbase": 0, "gother": 0})
+            metas.append(meta)
+            rep.case(key=json.dumps([inst["sizes"], inst["D"], list(perm)]))
+    return recs, metas
+
+
 def judge(recs):
     path = scratch() / f"inv-{random.getrandbits(32):08x}.json"
     path.write_text(json.dumps({"recs": recs}))
@@ -221,7 +272,10 @@ def run(tier, rep):
                         "Levenshtein categories are not renamed (the dissimilarity depends on the strings by definition)"]
     dissim.l1(rep, "quick")
     align.l1_align(rep, ["2x2", "3x1"] if quick else ["2x2", "2x2de2", "3x1", "3x2", "4x1"], emit=False, inv=True)
-    recs, metas = build(pa, rng, 70 if quick else 1200, rep)
+    insts = align.l1_align(rep, ["3x1hi", "4x1hi"] if quick else ["3x1", "3x1hi", "4x1hi3", "3x2hi", "4x1"], emit=True, inv=True)
+    recs, metas = instance_permutations(rep, pa, rng, insts, 60 if quick else 1500)
+    r2, m2 = build(pa, rng, 70 if quick else 1200, rep)
+    recs, metas = recs + r2, metas + m2
     res, verdicts = judge(recs)
     rep.add_tlc(res)
     rep.traces += len(recs)
